@@ -187,6 +187,50 @@ def fresh_and_pure(ctx, R, f, what):
               "%s may return storage shared with %s" % (what, sorted(shared)))
 
 
+def no_shared_state(ctx, R, f, what, allow_self=False):
+    """The function writes nothing that outlives the call other than (optionally) its own instance: no store through a
+    class-level or module-level name, no memoised helper one call away.  Results that depend on such state depend on
+    what was computed before (another rate, another configuration) - not on the arguments alone."""
+    prog = ctx.prog
+    decos = [d for d in f.decorators if any(c in d for c in CACHE_DECOS)]
+    ctx.check(not decos, R, f, f.node, "%s is not memoised" % what, "%s is wrapped by %s: its result is computed once per argument tuple and shared afterwards" % (what, decos))
+    for c in astq.func_calls(f):
+        t = prog.resolve(f.module, c.func, f)
+        if hasattr(t, "decorators"):
+            decos = [d for d in t.decorators if any(k in d for k in CACHE_DECOS)]
+            ctx.check(not decos, R, f, c, "%s does not go through a memoised helper" % what,
+                      "%s calls %s, which is memoised (%s): a result computed for an earlier call with the same key - but possibly another "
+                      "sampling rate / default / configuration not in the key - is reused" % (what, getattr(t, "short", "?"), decos))
+    from ..alpha import locals_of, params_of
+    loc = locals_of(f.node) | params_of(f.node)
+    selfn = f.params[0] if (f.cls is not None and f.params and not f.is_staticmethod) else None
+    for n in f.body_nodes():
+        tg = []
+        if isinstance(n, ast.Assign):
+            for t in n.targets:
+                tg.extend(astq.flatten_targets(t))
+        elif isinstance(n, ast.AugAssign):
+            tg = [n.target]
+        elif isinstance(n, (ast.Global, ast.Nonlocal)):
+            ctx.bad(R, f, n, "%s rebinds module state (%s)" % (what, ", ".join(n.names)), "%s keeps no state between calls" % what)
+        recv = None
+        if isinstance(n, ast.Call) and isinstance(n.func, ast.Attribute) and n.func.attr in ("setdefault", "update", "append", "add", "extend", "insert", "pop", "clear", "__setitem__"):
+            recv = n.func.value
+        for t in tg + ([recv] if recv is not None else []):
+            if isinstance(t, ast.Name):
+                continue
+            b = astq.base_name(t)
+            if b is None:
+                continue
+            if b == selfn:
+                if not allow_self:
+                    ctx.bad(R, f, n, "%s writes instance state (%s): what it returns afterwards depends on earlier calls" % (what, astq.text(t)[:60]), "%s keeps no state between calls" % what)
+                continue
+            if b not in loc:
+                ctx.bad(R, f, n, "%s writes %s, a class- or module-level object shared by every instance and call: values cached there for one "
+                        "configuration (sampling rate, threshold, axis) are served to another" % (what, astq.text(t)[:60]), "%s keeps no state between calls" % what)
+
+
 def windows(ctx, R="R-C20-windows"):
     prog = ctx.prog
     fm = prog.module("filters")
